@@ -11,3 +11,12 @@ var ghostSeqNum func(e Entry) uint64
 //@   trusted
 //@   modifies nothing
 //@   ensures result == ghostSeqNum(self)
+
+// ghostKey: the key bytes an entry reports.
+var ghostKey func(e Entry) []byte
+
+//@ func Entry.Key
+//@   property C07 C10
+//@   trusted
+//@   modifies nothing
+//@   ensures same(result, ghostKey(self))
